@@ -49,18 +49,37 @@ fn worker(path: &str) {
         writeln!(out, "done").unwrap(); out.flush().unwrap();
     }
 }
-/// returns for every job whether it terminated
+/// returns for every job whether it terminated. A worker that exceeds the time limit (or the address-space limit: a loop
+/// that allocates) is killed and the job it was on counts as not terminating; after a few such jobs the rest of the batch is
+/// not run (the verdict is already clear and every further hang would cost the full time limit).
 fn run_jobs(jobs: &[String], dir: &std::path::Path, limit: Duration) -> Vec<bool> {
-    let mut res = vec![]; let mut start = 0;
+    let mut res = vec![]; let mut start = 0; let mut hangs = 0;
+    let exe = std::env::current_exe().unwrap();
     while start < jobs.len() {
         let f = dir.join("jobs.txt"); std::fs::write(&f, jobs[start..].join("\n")).unwrap();
-        let mut child = Command::new(std::env::current_exe().unwrap()).arg("worker").arg(&f).stdout(Stdio::piped()).stderr(Stdio::null()).spawn().unwrap();
+        let mut child = Command::new("sh").arg("-c").arg(format!("ulimit -v 6000000; exec '{}' worker '{}'", exe.display(), f.display())).stdout(Stdio::piped()).stderr(Stdio::null()).spawn().unwrap();
         let t0 = Instant::now();
-        let finished = loop { match child.try_wait().unwrap() { Some(_) => break true, None => { if t0.elapsed() > limit { let _ = child.kill(); let _ = child.wait(); break false; } std::thread::sleep(Duration::from_millis(5)); } } };
-        let mut s = String::new(); use std::io::Read; child.stdout.take().unwrap().read_to_string(&mut s).unwrap();
-        let n = s.lines().count(); for _ in 0..n { res.push(true); }
+        let per_hang = if hangs == 0 { limit } else { Duration::from_secs(20).min(limit) };
+        let mut so = child.stdout.take().unwrap();
+        // read progress without blocking the time limit: a reader thread counts finished jobs
+        let counter = std::sync::Arc::new(std::sync::atomic::AtomicUsize::new(0));
+        let c2 = counter.clone();
+        let rd = std::thread::spawn(move || { use std::io::{BufRead, BufReader}; for l in BufReader::new(&mut so).lines() { if l.is_ok() { c2.fetch_add(1, std::sync::atomic::Ordering::SeqCst); } else { break; } } });
+        // the limit applies to the time since the last finished job
+        let mut last_n = 0; let mut last_t = t0;
+        loop {
+            match child.try_wait().unwrap() { Some(_) => break, None => {} }
+            let n = counter.load(std::sync::atomic::Ordering::SeqCst);
+            if n != last_n { last_n = n; last_t = Instant::now(); }
+            if last_t.elapsed() > per_hang { let _ = child.kill(); let _ = child.wait(); break; }
+            std::thread::sleep(Duration::from_millis(5));
+        }
+        let _ = rd.join();
+        let n = counter.load(std::sync::atomic::Ordering::SeqCst);
+        for _ in 0..n { res.push(true); }
         if start + n >= jobs.len() { break; }
-        let _ = finished; res.push(false); start += n + 1;
+        res.push(false); start += n + 1; hangs += 1;
+        if hangs >= 4 { while res.len() < jobs.len() { res.push(true); } break; }
     }
     res.truncate(jobs.len()); res
 }
@@ -128,8 +147,21 @@ fn main() {
                 let nr = rng.range(1, 4);
                 let names: Vec<String> = (0..nr).map(|i| format!("r{}", i)).collect();
                 let strict_g = gi % 5 == 4;
-                let mut rules: Vec<Rule> = (0..nr).map(|i| { let d = rng.range(1, 3); Rule { name: names[i].clone(), ty: *rng.pick(&[RuleType::Normal, RuleType::Silent, RuleType::Atomic]), expr: if strict_g { strict(&mut rng, &names, d) } else { wild(&mut rng, &names, d) } } }).collect();
-                if rng.chance(1, 4) { let e = if strict_g { Expr::Str(" ".into()) } else { match rng.below(4) { 0 => Expr::Str(String::new()), 1 => Expr::Opt(bx(Expr::Str(" ".into()))), 2 => Expr::NegPred(bx(Expr::Str("x".into()))), _ => Expr::Str(" ".into()) } }; rules.push(Rule { name: "WHITESPACE".into(), ty: RuleType::Silent, expr: e }); }
+                let mut rules: Vec<Rule> = (0..nr).map(|i| { let d = rng.range(1, 3); Rule { name: names[i].clone(), ty: *rng.pick(&[RuleType::Normal, RuleType::Silent, RuleType::Atomic, RuleType::NonAtomic, RuleType::Normal, RuleType::CompoundAtomic]), expr: if strict_g { strict(&mut rng, &names, d) } else { wild(&mut rng, &names, d) } } }).collect();
+                // near miss: a nullable rule that repeats itself behind a consuming literal (`r = ("a" ~ r*)?`): only the repetition
+                // check can reject it
+                if !strict_g && rng.chance(1, 25) { let i = rng.below(nr as u64) as usize; let me = Expr::Ident(names[i].clone());
+                    let rep = if rng.chance(1, 2) { Expr::Rep(bx(me)) } else { Expr::RepOnce(bx(me)) };
+                    let core = Expr::Opt(bx(Expr::Seq(bx(Expr::Str(rng.pick(&["a", "b"]).to_string())), bx(rep))));
+                    rules[i].expr = if rng.chance(1, 3) { Expr::Seq(bx(Expr::NegPred(bx(Expr::Str("1".into())))), bx(core)) } else { core }; }
+                // WHITESPACE / COMMENT: good and bad literal bodies, and bodies that go through the grammar's own rules (the
+                // implicit skips inside non-atomic rules can then come back to them)
+                let skip_body = |rng: &mut Rng, lit: &str, names: &[String]| -> Expr { let r = Expr::Ident(rng.pick(names).clone());
+                    match rng.below(8) { 0 => Expr::Str(String::new()), 1 => Expr::Opt(bx(Expr::Str(lit.into()))), 2 => Expr::NegPred(bx(Expr::Str("x".into()))), 3 => r,
+                        4 => Expr::Seq(bx(r), bx(Expr::Str(lit.into()))), 5 => Expr::Seq(bx(Expr::Str(lit.into())), bx(r)), _ => Expr::Str(lit.into()) } };
+                let sty = |rng: &mut Rng| *rng.pick(&[RuleType::Silent, RuleType::Silent, RuleType::Normal, RuleType::Atomic]);
+                if rng.chance(1, 3) { let e = if strict_g { Expr::Str(" ".into()) } else { skip_body(&mut rng, " ", &names) }; let ty = sty(&mut rng); rules.push(Rule { name: "WHITESPACE".into(), ty, expr: e }); }
+                if rng.chance(1, 4) { let e = if strict_g { Expr::Str("#".into()) } else { skip_body(&mut rng, "#", &names) }; let ty = sty(&mut rng); rules.push(Rule { name: "COMMENT".into(), ty, expr: e }); }
                 let l = format!("L {} {}", EXTRAS as u8, show_rules(&rules));
                 let v = verdict(&rules);
                 *stats.entry(if v == "ok" { "accepted".into() } else if v.starts_with("err") { "rejected".to_string() } else { v.clone() }).or_default() += 1;
